@@ -194,6 +194,7 @@ def benign(outdir, i, name, props, tier="quick"):
     if os.path.exists(mp):
         meta["runs"] = json.load(open(mp)).get("runs", [])
         meta["verdict"] = json.load(open(mp)).get("verdict", "")
+        meta["summary"] = json.load(open(mp)).get("summary", "")
     tag = "%s_%d" % (name, os.getpid())
     wt = "/tmp/wt/ben_" + tag
     snap = "/tmp/vsnap_" + tag
